@@ -26,11 +26,12 @@ type UCIGenCfg struct {
 	CRLF       bool    `json:"crlf"`
 	Spsa       bool    `json:"spsa"`
 	Hash       bool    `json:"hash"`
-	SweepStop  int     `json:"sweep_stop"`          // >0: in every search SweepCmd is sent exactly when the search is parked before this poll (systematic sweep)
-	SweepCmd   string  `json:"sweep_cmd,omitempty"` // stop (default) | quit | eof | isready | ponderhit
-	Merge      bool    `json:"merge,omitempty"`     // several lines per write
-	NoEOL      bool    `json:"no_eol,omitempty"`    // the last line of the session is not newline-terminated
-	NoClock    bool    `json:"no_clock,omitempty"`  // only requests whose outcome cannot depend on the clock (driver twins)
+	SweepStop  int     `json:"sweep_stop"`            // >0: in every search SweepCmd is sent exactly when the search is parked before this poll (systematic sweep)
+	SweepCmd   string  `json:"sweep_cmd,omitempty"`   // stop (default) | quit | eof | isready | ponderhit
+	PWriteErr  float64 `json:"p_write_err,omitempty"` // per grant: the write fails instead (fault)
+	Merge      bool    `json:"merge,omitempty"`       // several lines per write
+	NoEOL      bool    `json:"no_eol,omitempty"`      // the last line of the session is not newline-terminated
+	NoClock    bool    `json:"no_clock,omitempty"`    // only requests whose outcome cannot depend on the clock (driver twins)
 }
 
 func drawUCIGenCfg(rng *rand.Rand, stub bool) UCIGenCfg {
@@ -49,6 +50,9 @@ func drawUCIGenCfg(rng *rand.Rand, stub bool) UCIGenCfg {
 	c.CRLF = rng.IntN(8) == 0
 	c.Spsa = SpsaBuild && rng.IntN(2) == 0
 	c.Hash = rng.IntN(4) == 0
+	if rng.IntN(8) == 0 {
+		c.PWriteErr = pick(rng, []float64{0.01, 0.05, 0.3})
+	}
 	c.Merge = rng.IntN(3) == 0
 	c.NoEOL = rng.IntN(6) == 0
 	return c
@@ -298,7 +302,7 @@ func (g *uciGen) idle(w *uciWorld) {
 		g.turns++
 	}
 	if w.hasPend && g.stall == 0 && r.IntN(4) != 0 {
-		g.queue = append(g.queue, UStep{Op: "grant", N: 1 + r.IntN(3)})
+		g.queue = append(g.queue, UStep{Op: "grant", N: 1 + r.IntN(3), Fail: r.Float64() < g.cfg.PWriteErr})
 		return
 	}
 	if g.stall > 0 {
@@ -473,7 +477,9 @@ func (g *uciGen) during(w *uciWorld) {
 		return
 	}
 	if w.hasPend && g.stall == 0 {
-		opts = append(opts, opt{4, func() { g.queue = append(g.queue, UStep{Op: "grant", N: 1 + r.IntN(2)}) }})
+		opts = append(opts, opt{4, func() {
+			g.queue = append(g.queue, UStep{Op: "grant", N: 1 + r.IntN(2), Fail: r.Float64() < g.cfg.PWriteErr})
+		}})
 	}
 	if w.parked {
 		opts = append(opts, opt{6, func() {
